@@ -293,6 +293,49 @@ pub fn run(ctx: &mut Ctx) {
             ctx.sample(|| json!({"shape": what, "n_terms": n}));
         }
     }
+    // ---- decoded ontologies whose terms are flagged obsolete and / or replaced while still connected and
+    // annotated (the Builder cannot set the flags): the formulas do not involve the flags
+    for n in 2..=4usize {
+        let dags = all_dags(n);
+        ctx.space(&format!("binary/D{n}/flagged-terms-x-pairs"), &format!("{} labelled DAGs over {:?} decoded from a v3 file x (each single term flagged obsolete and replaced by the next one | all terms flagged) x one annotation pattern x {} ordered pairs x 8 algorithms x 3 kinds", dags.len(), &super::c01::POOL_ROOTS[..n], n * n));
+        for d in &dags {
+            if !ctx.take() {
+                continue;
+            }
+            ctx.state();
+            let mut base = Facts::from_dag(d, &super::c01::POOL_ROOTS);
+            base.version = (2024, 2, 29);
+            let ids: Vec<u32> = base.terms.iter().map(|t| t.id).collect();
+            base.anns = AnnGroups::new(0b0110 & ((1 << n) - 1), &ids).interleaved();
+            for k in 0..=n {
+                let mut f = base.clone();
+                for i in 0..n {
+                    if i == k || k == n {
+                        f.terms[i].obsolete = true;
+                        f.terms[i].replacement = Some(ids[(i + 1) % n]);
+                    }
+                }
+                let r = RefOnt::derive(&f);
+                ctx.transitions(f.n_steps() + (n * n * 24) as u64);
+                let bytes = crate::encode::encode(&f, &crate::encode::EncOpts::v(3));
+                let Ok(Ok(ont)) = drive::from_bytes(&bytes) else {
+                    ctx.exec();
+                    ctx.violation("Ontology::from_bytes", "[binary v3] cannot decode a file laid out as documented", json!({"case": f.to_json()}));
+                    continue;
+                };
+                let mut counters = (0u64, 0u64);
+                match guard(|| check_ontology(&ont, &r, &ALGS, &mut counters)) {
+                    Ok(None) => {}
+                    Ok(Some((site, sig, det))) => ctx.violation(&site, &format!("[flagged terms] {sig}"), json!({"facts": f.to_json(), "dag": d.describe(), "flagged": if k == n { "all terms".to_string() } else { format!("term {}", ids[k]) }, "difference": det})),
+                    Err(p) => ctx.violation("Similarity::calculate", "[flagged terms] panics", json!({"facts": f.to_json(), "observed": p})),
+                }
+                ctx.execs(counters.0);
+                ctx.validateds(counters.0);
+                ctx.nontrivials(counters.1);
+            }
+            ctx.sample(|| json!({"dag": d.describe(), "ids": ids, "flag patterns": n + 1}));
+        }
+    }
     if !thorough {
         // distance-shaped algorithm on all 5-node graphs (its interesting shapes need 5 terms)
         let n = 5;
